@@ -192,6 +192,35 @@ func Local[T any](v T) interface{} {
 	return local{v}
 }
 
+// Local2 declares a type inside a generic function with two type parameters: (A, B) and
+// (B, A), and (A, A) and (B, B), are four different types.
+func Local2[A, B any](a A, b B) interface{} {
+	type local2 struct {
+		x A
+		y B
+	}
+	return local2{a, b}
+}
+
+// LocalIn declares a type inside a method of a generic type.
+func (p Pair[K, V]) LocalIn() interface{} {
+	type in struct {
+		k K
+		v V
+	}
+	return in{p.Key, p.Val}
+}
+
+// Embedded is promoted through Tagged[T]; generic code calls it through a type parameter.
+type Embedded struct{ N int32 }
+
+func (e Embedded) Name() string { return "emb" + string(rune('0'+e.N%10)) }
+
+type Tagged[T any] struct {
+	V T
+	Embedded
+}
+
 @LOCALPAIR@
 // Chain instantiates generic code from generic code with growing type arguments.
 func Chain[T any](v T) interface{}  { return chain2([]T{v}) }
@@ -210,6 +239,40 @@ func Buffered[T any](v T) T {
 	c := make(chan T, 1)
 	c <- v
 	return <-c
+}
+
+// AddrIn takes the address of a variable of a function literal inside generic code.
+func AddrIn[T any](v T) T {
+	f := func() *T {
+		x := v
+		p, q := &x, &x
+		*p = v
+		return q
+	}
+	return *f()
+}
+
+var pkgVar int32 = 3
+
+func PtrGeneric[T any](v T) *int32 { return &pkgVar }
+func PtrPlain() *int32             { return &pkgVar }
+
+// Drain ranges over a channel of type-parameter type (blocking per instance).
+func Drain[C ~chan E, E any](c C, f func(E)) {
+	for v := range c {
+		f(v)
+	}
+}
+
+func Feed[E any](vs ...E) chan E {
+	c := make(chan E)
+	go func() {
+		for _, v := range vs {
+			c <- v
+		}
+		close(c)
+	}()
+	return c
 }
 
 type Namer interface{ Name() string }
@@ -308,6 +371,61 @@ func SumMy(xs ...MyInt) MyInt        { return g.Sum(xs...) }
 func WrapMy(v MyInt) MyInt           { return g.Wrap(v) }
 func Generic[T g.Num](v T) string    { return g.ShowNum(g.Conv[T, MyInt](v)) + g.ShowNum(g.Conv[T, MyFloat](v)) }
 func RelayRec(r Rec) Rec             { return g.Relay(r) }
+
+// methods promoted from embedded struct values, called through a type parameter
+type Base struct{ N int32 }
+
+func (b Base) Name() string { return "base" + string(rune('0'+b.N%10)) }
+
+type Outer struct {
+	Tag string
+	Base
+}
+
+type Outer2 struct {
+	X int8
+	Outer
+}
+
+type OuterP struct {
+	Tag string
+	*Base
+}
+
+func Promoted() string {
+	o := Outer{"t", Base{3}}
+	o2 := Outer2{1, Outer{"u", Base{4}}}
+	f := g.NameOf[Outer2]
+	return g.NameOf(o) + g.NameOf(&o) + g.NameOf(o2) + g.Names([]Outer{o, {"v", Base{5}}}) + g.NameOf(OuterP{"p", &Base{6}}) +
+		g.NameOf(g.Tagged[string]{"s", g.Embedded{7}}) + g.NameOf(&g.Tagged[Outer]{o, g.Embedded{8}}) + f(o2)
+}
+
+// types declared inside plain functions as type arguments of another package's generics
+func LocStack() interface{} {
+	type loc struct{ A int32 }
+	return &g.Stack[loc]{}
+}
+
+func LocStack2() interface{} {
+	type loc struct{ A int32 }
+	return &g.Stack[loc]{}
+}
+
+func LocPair() interface{} {
+	type loc struct{ A int32 }
+	return g.MakePair("k", loc{1})
+}
+
+// exported identifiers with non-ASCII letters
+type Ünï struct{ V int32 }
+
+func (u Ünï) Name() string { return "a.Uni" }
+
+func Maké(v int32) Ünï { return Ünï{v} }
+
+var Vär = Ünï{4}
+
+const Cö = 7
 `
 
 const pkgB = `package b
@@ -465,6 +583,8 @@ func same(x, y interface{}) (r string) {
 			fmt.Fprintf(&b, "\temit(\"fwrap%s\", g.ShowNum(g.FWrap(%s))+g.ShowNum(g.Sum(%s, %s)))\n", id, v, v, v)
 			fmt.Fprintf(&b, "\temit(\"fconv%s\", g.ShowNum(g.Conv[%s, float32](%s))+g.ShowNum(g.Conv[%s, float64](%s)))\n", id, t.Go, v, t.Go, v)
 		}
+		fmt.Fprintf(&b, "\temit(\"addr%s\", describe(g.AddrIn(%s))+lib.Btoa(g.PtrGeneric(%s) == g.PtrPlain()))\n", id, v, v)
+		fmt.Fprintf(&b, "\t{\n\t\ts := \"\"\n\t\tg.Drain(g.Feed(%s, g.Zero[%s]()), func(x %s) { s += describe(x) })\n\t\temit(\"drain%s\", s)\n\t}\n", v, t.Go, t.Go, id)
 		// function value of an instance, method value and method expression of an instance
 		fmt.Fprintf(&b, "\t{\n\t\tf := g.Buffered[%s]\n\t\tst := &g.Stack[%s]{}\n\t\tpush := st.Push\n\t\tpop := (*g.Stack[%s]).Pop\n\t\tpush(f(%s))\n\t\tx, _ := pop(st)\n\t\temit(\"fv%s\", describe(x))\n\t}\n", t.Go, t.Go, t.Go, v, id)
 	}
@@ -477,10 +597,15 @@ func same(x, y interface{}) (r string) {
 		"a.AnonStruct()", "b.AnonStruct()", "struct{ A int32 }{1}", "struct{ B int32 }{1}", "a.AnonFunc()", "b.AnonFunc()",
 		"a.MyInt(1)", "b.MyInt(1)", "int16(1)", "int32(1)", "a.Rec{1, \"x\"}", "b.Rec{1, \"x\"}",
 		"g.Chain(int8(1))", "g.Chain(int16(1))",
+		"g.Local2(int32(1), int32(1))", "g.Local2(uint32(1), uint32(1))", "g.Local2(a.MyInt(1), a.MyInt(1))", "g.Local2(b.MyInt(1), b.MyInt(1))", "g.Local2(int32(1), int16(1))", "g.Local2(int16(1), int32(1))", "g.Local2(a.MyInt(1), b.MyInt(1))", "g.Local2(b.MyInt(1), a.MyInt(1))", "g.Local2(int32(1), int32(1))", "g.Local2(\"s\", \"s\")",
+		"g.MakePair(int8(1), int8(1)).LocalIn()", "g.MakePair(uint8(1), uint8(1)).LocalIn()", "g.MakePair(\"k\", int8(1)).LocalIn()", "g.MakePair(int8(1), \"k\").LocalIn()", "g.MakePair(int8(1), int8(1)).LocalIn()",
+		"g.Local(loc{1})", "&g.Stack[loc]{}", "otherLocStack()", "a.LocStack()", "a.LocStack2()", "g.MakePair(\"k\", loc{1})", "otherLocPair()", "a.LocPair()", "loc{1}",
+		"a.Maké(1)", "a.Vär", "&g.Stack[a.Ünï]{}", "g.Local(a.Ünï{1})",
 		"g.Set[int8]{}", "g.Set[a.MyInt]{}", "g.Tree[int8]{}", "g.Tree[uint8]{}", "&g.Tree[int8]{}",
 	}
 	r.Shuffle(len(vals), func(i, j int) { vals[i], vals[j] = vals[j], vals[i] })
-	b.WriteString("func identity() {\n\tvals := []interface{}{\n")
+	b.WriteString("func otherLocStack() interface{} {\n\ttype loc struct{ A int32 }\n\treturn &g.Stack[loc]{}\n}\n\nfunc otherLocPair() interface{} {\n\ttype loc struct{ A int32 }\n\treturn g.MakePair(\"k\", loc{1})\n}\n\n")
+	b.WriteString("func identity() {\n\ttype loc struct{ A int32 }\n\tvals := []interface{}{\n")
 	for _, v := range vals {
 		b.WriteString("\t\t" + v + ",\n")
 	}
@@ -557,6 +682,8 @@ func main() {
 	emit("tree", b.TreeOfA())
 	emit("sumMy", g.ShowNum(a.SumMy(30000, 30000))+g.ShowNum(a.WrapMy(181))+g.ShowNum(b.WrapMy(46341)))
 	emit("relayRec", describe(a.RelayRec(a.Rec{3, "r"})))
+	emit("promoted", a.Promoted()+g.NameOf(a.Outer{"m", a.Base{9}})+g.Names([]*a.Outer2{{2, a.Outer{"n", a.Base{1}}}}))
+	emit("nonascii", g.NameOf(a.Vär)+g.NameOf(a.Maké(2))+lib.Itoa(a.Cö)+lib.Itoa(int(g.Relay(a.Maké(5)).V)))
 	ks := g.Keys(map[a.MyInt]string{3: "c", 1: "a", 2: "b"}, func(x, y a.MyInt) bool { return x < y })
 	emit("keys", g.ShowNum(ks[0])+g.ShowNum(ks[1])+g.ShowNum(ks[2]))
 	println("END")
@@ -608,4 +735,41 @@ func main() {
 }
 `
 	return map[string]string{"main.go": main, "lib/lib.go": libPkg, "g/g.go": leaf}
+}
+
+// SentinelCompositeOfNested is the minimal program of a recorded finding: a composite type
+// ([]L) over a type declared inside a generic function.
+func SentinelCompositeOfNested() map[string]string {
+	return map[string]string{"main.go": `package main
+
+func f[T any](v T) int {
+	type L struct{ a T }
+	s := []L{{v}, {v}}
+	return len(s)
+}
+
+func main() {
+	println(f(int32(1)), f("x"))
+	println("END")
+}
+`}
+}
+
+// SentinelNestedFuncTypeArg is the minimal program of a recorded finding: a type declared
+// inside a generic function used as the type argument of a generic function.
+func SentinelNestedFuncTypeArg() map[string]string {
+	return map[string]string{"main.go": `package main
+
+func G[X any](x X) interface{} { return x }
+
+func f[T any](v T) bool {
+	type L struct{ a T }
+	return G(L{v}) == G(L{v})
+}
+
+func main() {
+	println(f(int32(1)), f("x"))
+	println("END")
+}
+`}
 }
